@@ -28,7 +28,7 @@ CONFIG = {
     'quick': {'shards': 16, 'cases': 22, 'timeout': 600, 'floor': 60},
     'thorough': {'shards': 32, 'cases': 400, 'timeout': 3000, 'floor': 2000},
 }
-REQUIRED = ['updates_observed', 'rows_matched', 'mode_threshold', 'mode_quantile', 'mode_n_sim',
+REQUIRED = ['runs_with_progress_bar', 'updates_observed', 'rows_matched', 'mode_threshold', 'mode_quantile', 'mode_n_sim',
             'ties_in_result', 'inf_consumed']
 
 BATCH_SIZES = [1, 2, 3, 5, 8, 16, 50]
@@ -67,7 +67,7 @@ def gen_cases(ctx):
         k = int(rng.integers(0, len(cand) + 1))
         outn = [str(x) for x in rng.choice(cand, size=k, replace=False)]
         case = {'spec': spec, 'bs': bs, 'n': n, 'mode': mode, 'kw': kw, 'outputs': outn, 'seed': seed,
-                'mpb': int(rng.integers(1, 5))}
+                'mpb': int(rng.integers(1, 5)), 'bar': bool(rng.random() < 0.3)}
         if rng.random() < 0.3:
             n2 = int(rng.choice(N_SAMPLES))
             mode2, kw2 = _objective(rng, spec, bs, n2, seed + 1)
@@ -156,11 +156,12 @@ def run_case(ctx, case):
         return upd(batch, batch_index)
 
     rej.update = recording_update
-    res = rej.sample(case['n'], bar=False, **case['kw'])
+    ctx.event('runs_with_progress_bar', bool(case.get('bar')))
+    res = rej.sample(case['n'], bar=bool(case.get('bar')), **case['kw'])
     check_result(ctx, case, case['n'], case['mode'], case['kw'], hist, res, names)
     if 'again' in case:
         a = case['again']
         del hist[:]
-        res2 = rej.sample(a['n'], bar=False, **a['kw'])
+        res2 = rej.sample(a['n'], bar=bool(case.get('bar')), **a['kw'])
         ctx.event('second_sample_calls')
         check_result(ctx, case, a['n'], a['mode'], a['kw'], hist, res2, names)
